@@ -163,7 +163,7 @@ def mk_doc(ctx: Ctx, allow: set[str]) -> specgen.Doc:
     rng = ctx.rng
     d = specgen.generate(rng, allow=allow, prof={"ops": (2, 8), "opid_shapes": True, "p_dup_opid": 0.25 if rng.random() < 0.4 else 0.0,
                                                  "p_stream": 0.1, "ntags": 4, "schemas": (2, 4), "p_multi_response_media": 0.15,
-                                                 "p_nullable_response": 0.15, "p_component_refs": 0.3})
+                                                 "p_nullable_response": 0.15, "p_component_refs": 0.3, "p_range_2xx": 0.08})
     if rng.random() < 0.35:
         for path, item in d.doc["paths"].items():
             for meth, op in item.items():
